@@ -60,7 +60,7 @@ class Case:
         shutil.rmtree(self.dir, ignore_errors=True)
 
 
-def make_reference(case: Case, seed: int, n_genes: int):
+def make_reference(case: Case, seed: int, n_genes: int, sec_near_start: float = 0.0):
     """fake genome + annotation (+ proteome by translation), written with the
     repository's writers as util/fuzz_test.py does."""
     _imports()
@@ -70,6 +70,15 @@ def make_reference(case: Case, seed: int, n_genes: int):
     from Bio.Seq import Seq
     random.seed(seed)
     genome, anno = fake.fake_genome_and_annotation(n_genes)
+    if sec_near_start > 0:
+        prng = random.Random(seed ^ 0x5EC)
+        for tx_id in list(anno.transcripts.keys()):
+            if prng.random() < sec_near_start:
+                try:
+                    if plant_sec(anno, genome, prng, tx_id):
+                        case.meta.setdefault('planted_sec', []).append(tx_id)
+                except Exception:   # noqa
+                    pass
     proteome = aa.AminoAcidSeqDict()
     for tx_model in anno.transcripts.values():
         if not tx_model.is_protein_coding:
@@ -508,7 +517,7 @@ def small_variant(anno, genome, tx_id: str, tx_pos: int, kind: str, size: int,
 
 
 def dense_variants(anno, genome, tx_id: str, rng: random.Random, n: int, max_size: int = 4,
-                   snv_frac: float = 0.55, window: int = 40):
+                   snv_frac: float = 0.55, window: int = 40, edge_frac: float = 0.25):
     """n small variants of one transcript, clustered: a focus (start codon, stop codon,
     a Sec codon, an exon junction, or a random point) is drawn and the variants fall in a
     window around it, so adjacent / overlapping / frame-restoring combinations and variants
@@ -529,16 +538,28 @@ def dense_variants(anno, genome, tx_id: str, rng: random.Random, n: int, max_siz
     out, seen = [], set()
     nfoci = rng.choice([1, 1, 2])
     chosen = [rng.choice(foci) for _ in range(nfoci)]
+    # positions whose records END or START exactly on the edge of a special codon / junction
+    # (last base before a Sec or stop codon, first base behind it, …): conditions of the form
+    # `end <= start_of_codon` vs `<` only show on these
+    specials = list(foci[1:])
     tries = 0
     while len(out) < n and tries < n * 20:
         tries += 1
-        f = rng.choice(chosen)
-        pos = f + rng.randint(-window // 2, window // 2) if rng.random() < 0.85 \
-            else rng.randrange(tx_len)
         r = rng.random()
         kind = 'SNV' if r < snv_frac else ('INS' if r < snv_frac + (1 - snv_frac) / 2 else 'DEL')
+        size = rng.randint(1, max_size)
+        if specials and rng.random() < edge_frac:
+            c = rng.choice(specials) + rng.choice([0, 0, 3])
+            if kind == 'DEL':
+                pos = rng.choice([c - size - 1, c - 1, c])       # ends at c / anchored just before c / at c
+            else:
+                pos = rng.choice([c - 1, c - 1, c, c + 2])
+        else:
+            f = rng.choice(chosen)
+            pos = f + rng.randint(-window // 2, window // 2) if rng.random() < 0.85 \
+                else rng.randrange(tx_len)
         try:
-            rec = small_variant(anno, genome, tx_id, pos, kind, rng.randint(1, max_size), rng)
+            rec = small_variant(anno, genome, tx_id, pos, kind, size, rng)
         except Exception:   # noqa  intronic / out of range
             rec = None
         if rec is None or rec.id in seen:
@@ -546,6 +567,51 @@ def dense_variants(anno, genome, tx_id: str, rng: random.Random, n: int, max_siz
         seen.add(rec.id)
         out.append(rec)
     return out
+
+
+def plant_sec(anno, genome, rng: random.Random, tx_id: str, near_start: bool = True) -> bool:
+    """turn one codon of a coding transcript into an annotated selenocysteine (genome base
+    changed to TGA, `selenocysteine` feature added to the model) — close behind the start
+    codon when `near_start`, so that Sec termination interacts with the start node, the
+    Met-removed twin and upstream variants.  Applied before the reference files are written."""
+    _imports()
+    from Bio.Seq import Seq
+    from moPepGen.gtf.GTFSeqFeature import GTFSeqFeature
+    from moPepGen.SeqFeature import FeatureLocation
+    tx_model = anno.transcripts[tx_id]
+    if not tx_model.is_protein_coding or not tx_model.cds:
+        return False
+    chrom = tx_model.transcript.chrom
+    strand = tx_model.transcript.strand
+    tx_seq = tx_model.get_transcript_sequence(genome[chrom])
+    if not tx_seq.orf:
+        return False
+    o0, o1 = int(tx_seq.orf.start), int(tx_seq.orf.end)
+    ncod = (o1 - o0) // 3
+    if ncod < 12:
+        return False
+    have = {int(s.start) for s in tx_seq.selenocysteine}
+    for _ in range(20):
+        k = rng.randint(3, min(14, ncod - 3)) if near_start else rng.randint(3, ncod - 3)
+        p = o0 + 3 * k
+        if any(abs(p - h) < 3 for h in have):
+            continue
+        try:
+            gs = [anno.coordinate_transcript_to_genomic(p + j, tx_id) for j in range(3)]
+        except Exception:   # noqa
+            continue
+        lo, hi = min(gs), max(gs)
+        if hi - lo != 2:
+            continue            # codon split by an intron
+        nts = list(str(genome[chrom].seq))
+        nts[lo:hi + 1] = list('TGA' if strand == 1 else 'TCA')
+        genome[chrom].seq = Seq(''.join(nts))
+        feat = GTFSeqFeature(location=FeatureLocation(lo, hi + 1, strand=strand), type='selenocysteine',
+                             id=tx_id, attributes=dict(tx_model.transcript.attributes), chrom=chrom)
+        tx_model.selenocysteine.append(feat)
+        tx_model.selenocysteine.sort(key=lambda f: int(f.location.start))
+        return True
+    return False
 
 
 def custom_reference(case: Case, cds_seq: str, utr5: str = 'GCGC', utr3: str = 'GCGCGCGCGC',
